@@ -78,6 +78,22 @@ Catalogue == {
   Op(<<"sec2gmtdate", "y">>, FALSE, FALSE, FALSE, FALSE), Plain(<<"gap", "-n", "100">>), Plain(<<"fill-empty", "--only-if-blank", "-v", "X", "--only-if-all-blank">>)
 } \ {Plain(<<"put", "$z = format_values is_absent">>), Plain(<<"fill-empty", "--only-if-blank", "-v", "X", "--only-if-all-blank">>)}
 
+\* Operations that COPY x (into another field, a map, an out-of-stream variable) and then change the copy, in the same
+\* verb or in a following one (an operation may be a short then-chain): assignment copies, so x keeps its text.  The engine
+\* runs every catalogue operation in front of each of these (the value has then been read, typed, compared ... before it is
+\* copied).
+CopyThenChange == {
+  Plain(<<"put", "$z = $x", "then", "json-parse", "-f", "z">>), Plain(<<"put", "$z = $x", "then", "json-stringify", "-f", "z">>),
+  Plain(<<"put", "$z = $x", "then", "sec2gmt", "z">>), Plain(<<"put", "$z = $x", "then", "put", "$z[1] = \"q\"">>),
+  Plain(<<"put", "$z = $x; $z[\"k\"] = 1">>), Plain(<<"put", "$z = $x; $z[1] = 5">>), Plain(<<"put", "$z = $x; $z .= \"s\"">>),
+  Plain(<<"put", "m = $*; m[\"x\"][1] = 5; $z = 1">>), Plain(<<"put", "@v = $x; @v[1] = 5; $z = 1">>),
+  Plain(<<"put", "v = $x; v[1][2] = 5; $z = 1">>), Plain(<<"put", "$z = $x", "then", "sub", "-f", "z", "0", "Q">>),
+  Plain(<<"put", "$z = $x", "then", "fill-empty", "-v", "E", "--only-if-blank">>),
+  Plain(<<"put", "$z = $x", "then", "nest", "--explode", "--values", "--across-fields", "-f", "z", "--nested-fs", ";">>),
+  Plain(<<"put", "if (is_string($x) || is_present($x)) {$z = $x; $z[1] = \"q\"}">>),
+  Plain(<<"put", "$z = typeof($x); $w = $x; $w[1] = $z">>),
+  Plain(<<"put", "-q", "tee > \"tee2.out\", $*; $x_copy = $x; emit mapsum($*, {\"z\": 1})">>) }
+
 (***************************************************************************)
 (* Judgement of one run: inx / outx are the texts of field x in the input   *)
 (* and output records (a record without x contributes nothing); pos is, per *)
